@@ -603,6 +603,7 @@ fn order_strategy(t: Tier) -> BoxedStrategy<Scenario> {
     TrafficParams {
             max_values: 6,
             w_try: 1,
+            fork: 2,
             ..TrafficParams::default()
         },
             t,
